@@ -602,6 +602,11 @@ def _write_config_for_build(font_config: FontConfig):
 
 
 def _run(argv):
+    unrecognized = [f for f in argv[1:] if not f.endswith((".svg", ".toml"))]
+    if unrecognized:
+        raise ValueError(
+            f"Inputs must be .svg or .toml files, don't know what to do with {unrecognized}"
+        )
     additional_srcs = tuple(Path(f) for f in argv if f.endswith(".svg"))
     font_configs = config.load_configs(
         tuple(Path(f) for f in argv if f.endswith(".toml")),
